@@ -109,6 +109,26 @@ Section Structure.
     existsb (fun s => match s with Include h => Nat.eqb h g | _ => false end) ss.
 End Structure.
 
+(* ---- insert_file resolves its operand relative to the file that contains it ------------------ *)
+(* Source statements: [SInsertAt name] is 'insert_file "name"' as written; [blob me name] are the bytes
+   of the file that this spelling resolves to FROM FILE [me] (devices.resolve_relative_path on the
+   directory of the including file): the file system is keyed by (including file, path as written),
+   never by the spelling alone. *)
+Section Source.
+  Variable P : Type.
+  Inductive sstmt :=
+  | SStmt (s : stmt P)
+  | SInsertAt (name : nat).
+  Variable blob : fid -> nat -> list Z.
+  Definition elab (me : fid) (s : sstmt) : stmt P :=
+    match s with SStmt s0 => s0 | SInsertAt nm => Insert P (blob me nm) end.
+  Definition elab_table (src : fid -> list sstmt) : fid -> list (stmt P) := fun f => map (elab f) (src f).
+  Definition upd (src : fid -> list sstmt) (g : fid) (l : list sstmt) : fid -> list sstmt :=
+    fun f => if Nat.eqb f g then l else src f.
+End Source.
+Arguments SStmt {P} s.
+Arguments SInsertAt {P} name.
+
 Arguments Plain {P} p.
 Arguments Byte {P} vs.
 Arguments Insert {P} bs.
